@@ -7,6 +7,8 @@ RUNS = {"quick": 3000, "thorough": 100000}
 BUDGET_S = {"quick": 50, "thorough": 840}
 CHUNK = 50
 RULE = ('One evaluation = one seeded history over run / dry-run / status / touch / clean / spec edit / hashing on|off (via gwf config) / rename / remove / add target / run with the k-th submission rejected. Oracle: parsed .gwf/spec-hashes.json == M_hash after every gwf command (set on accepted submission or touch while enabled, erased on clean, untouched otherwise), and every status table == M_status computed with M_hash.')
+RULE += (" Histories also contain interrupted or failing gwf invocations (hard kill at a seam event, Ctrl-C, ENOSPC, a failing or "
+         "unreachable scheduler command) - only the invocations after them are judged - and 1-2 % of the runs use 140-260 targets.")
 PROFILE = dict(
     nontrivial_probes=['hash_file_checks'],
     sizes=[1, 2, 3, 3, 4, 4, 5, 6, 8, 12, 16, 25],
